@@ -23,6 +23,16 @@ def src_text(paths, included):
     return s
 
 
+def cpp_src_text(paths, included):
+    """the same kernel as plain C++ (built with okl/enabled: false): the C++ compiler expands the includes"""
+    s = "".join('#include "%s"\n' % paths[i] for i in included)
+    for k in range(NH):
+        s += "#ifndef V%d\n#define V%d 0\n#endif\n" % (k, k)
+    s += ('extern "C" void f(int *out) {\n  out[0] = V0; out[1] = V1; out[2] = V2; out[3] = V3; '
+          'out[4] = 0; out[5] = 0; out[6] = 0; out[7] = 7;\n}\n')
+    return s
+
+
 class Hist:
     """a history in terms of abstract file indices; `ops` is a list of
        ("write", i, text) | ("rm", i) | ("src", included) | ("build",)"""
@@ -135,6 +145,11 @@ CORPUS = [
     # file removed and restored
     [("src", [0, 1]), H(0, 0, 1), H(1, 1, 2), B, ("rm", 1), B, H(1, 1, 2), B, H(1, 1, 4), B],
 ]
+# known finding C07-K1: a kernel built with okl/enabled: false gets its #includes from the C++
+# compiler; occa records no dependencies for it (no build.json), so an edited header is not noticed
+KNOWN_REPLAYS = [
+    [("cppsrc", [0]), H(0, 0, 1), B, H(0, 0, 2), B],
+]
 
 
 def concretise(ops, hdir):
@@ -154,7 +169,9 @@ def concretise(ops, hdir):
         elif op[0] == "rm":
             lines.append(("rm", paths[op[1]]))
         elif op[0] == "src":
-            lines.append(("src", src_text(paths, op[1])))
+            lines.append(("src", src_text(paths, op[1]), {"compiler_flags": "-O0"}))
+        elif op[0] == "cppsrc":
+            lines.append(("src", cpp_src_text(paths, op[1]), {"compiler_flags": "-O0", "okl": {"enabled": False}}))
         else:
             lines.append(("build",))
     return lines, paths
@@ -187,7 +204,7 @@ def run_history(ck, hb, db, lanes, mode, ops, tag, per_build_timeout):
             pending.append(op)
             model_ops.append(op)
         elif ln[0] == "src":
-            src = ln[1]
+            src, props = ln[1], ln[2]
             op = "cfg " + cfg_tokens(src, props)
             model_ops.append(op)
         else:
@@ -202,6 +219,7 @@ def run_history(ck, hb, db, lanes, mode, ops, tag, per_build_timeout):
             exp = [defs.get("V%d" % k, 0) for k in range(NH)] + [0, 0, 0, 7] if ok else None
             impl.append((rc, line, ora, se, exp))
     model = [l for l in run_model_lines(ck, db, model_ops) if l.startswith(("hit", "miss", "parse-error", "chain-error"))]
+    okl = not any(op[0] == "cppsrc" for op in ops)       # the model covers OKL builds only
     text = "mode %s\n" % mode + "\n".join(repr(o) for o in ops)
     bi = 0
     for bi, (rc, line, ora, se, exp) in enumerate(impl):
@@ -228,7 +246,9 @@ def run_history(ck, hb, db, lanes, mode, ops, tag, per_build_timeout):
                 fails.append(("%s: the kernel ran code that does not reflect the current contents of its included files: returned %s, current files imply %s (%s)"
                               % (where, got[:NH], exp[:NH], m.group(1)), True))
             mm = re.match(r"(hit|miss) key=(\w+) x=(\S+)$", mline)
-            if not mm or (mm.group(1), mm.group(2)) != (m.group(1), m.group(2)):
+            if not okl:
+                pass
+            elif not mm or (mm.group(1), mm.group(2)) != (m.group(1), m.group(2)):
                 fails.append(("%s: model and implementation disagree: impl=%s model=%s" % (where, line[:100], mline[:100]), False))
             elif mm:
                 # what the model says the binary was compiled from, turned into kernel outputs
@@ -253,7 +273,7 @@ def run_history(ck, hb, db, lanes, mode, ops, tag, per_build_timeout):
                 fails.append(("%s: the build failed (%s) although all included files exist" % (where, e.group(2)), True))
             elif e.group(2) != "missing-include":
                 fails.append(("%s: unexpected error class %s" % (where, e.group(2)), True))
-            if not mline.startswith("parse-error key=" + e.group(1)):
+            if okl and not mline.startswith("parse-error key=" + e.group(1)):
                 fails.append(("%s: model and implementation disagree: impl=%s model=%s" % (where, line[:100], mline[:100]), False))
         else:
             fails.append(("%s: unexpected harness output %r %s" % (where, line[:120], se[-120:]), True))
@@ -307,8 +327,9 @@ def main(argv):
         jobs = [(mode, ops, "replay")]
     else:
         nh, nb = (5, 4) if ck.tier == "quick" else (120, 7)
-        jobs = [(("serial", "openmp")[i % 2], ops, "%d-c%d" % (ck.seed, i)) for i, ops in enumerate(CORPUS[:3 if ck.tier == "quick" else None])]
+        jobs = [(("serial", "openmp")[i % 2], ops, "%d-c%d" % (ck.seed, i)) for i, ops in enumerate(CORPUS if ck.tier != "quick" else CORPUS[:3] + CORPUS[4:5])]
         jobs += [(ck.rng.choice(["serial", "openmp"]), gen_history(ck.rng, ck.rng.randint(3, nb)), "%d-%d" % (ck.seed, i)) for i in range(nh)]
+        jobs += [("serial", ops, "%d-k%d" % (ck.seed, i)) for i, ops in enumerate(KNOWN_REPLAYS)]
     tmo = 180
     tot = {"builds": 0, "hits": 0, "miss": 0, "errors": 0}
     nontriv = 0
